@@ -44,7 +44,8 @@ func newTextCtx() *textCtx {
 // `inherit` (inherited properties) or `initial` (the others).
 
 type cUnit struct {
-	kind  string // "prop" | "graph" | "misc"
+	kind  string // "prop" | "graph" | "misc" | "shared"
+	sh    []int
 	prop  string
 	graph []int // edge sets (kind graph)
 	mode  string
@@ -109,7 +110,7 @@ func computedOf(html string) map[string]string {
 					sb.WriteString(canonDeclared(st.Get(k.Key())))
 					sb.WriteByte('\n')
 				}
-				out[a.Val] = sb.String()
+				out[strings.Fields(a.Val + " -")[0]] = sb.String() // keyed by the first class
 			}
 		}
 	}
@@ -680,6 +681,14 @@ func (c *check) initC() {
 		}
 		c.cUnits = append(c.cUnits, u)
 	}
+	c.shCases = c.sharedCases()
+	for lo := 0; lo < len(c.shCases); lo += 8 {
+		u := cUnit{kind: "shared"}
+		for k := lo; k < lo+8 && k < len(c.shCases); k++ {
+			u.sh = append(u.sh, k)
+		}
+		c.cUnits = append(c.cUnits, u)
+	}
 	c.nC = int64(len(c.cUnits))
 }
 
@@ -695,6 +704,10 @@ func (c *check) runC(u int64, ctx *engine.Ctx) {
 	case "misc":
 		for _, k := range cu.misc {
 			c.runMisc(k, ctx)
+		}
+	case "shared":
+		for _, k := range cu.sh {
+			c.runShared(c.shCases[k], ctx)
 		}
 	}
 }
@@ -715,6 +728,14 @@ func (c *check) describeC(u int64) any {
 			l = append(l, gc.form+": "+mkGraph(gc.n, gc.bits, mode).decls())
 		}
 		return map[string]any{"part": "c", "custom_property_graphs": l}
+	}
+	if cu.kind == "shared" {
+		var l []string
+		for _, k := range cu.sh {
+			sc := c.shCases[k]
+			l = append(l, ".s { "+shTemplates[sc.t].decl+" } matched by "+shConfigs(shTemplates[sc.t])[sc.cfg].name)
+		}
+		return map[string]any{"part": "c", "shared_declarations": l}
 	}
 	var l []string
 	for _, k := range cu.misc {
